@@ -519,13 +519,15 @@ func (ndb *nodeDB) deleteVersion(version int64, cache *rootkeyCache) error {
 		if err != nil {
 			return err
 		}
-		// ensure that the given version is not included in the root search
-		if err := ndb.deleteFromPruning(ndb.nodeKey(literalRootKey)); err != nil {
-			return err
-		}
-		// instead, the root should be reformatted to (version, 0)
+		// the root should be reformatted to (version, 0); it is written before
+		// (version, 1) is deleted, so that the node can be found under one of the
+		// two keys wherever the batch happens to be flushed in between
 		root.nodeKey.nonce = 0
 		if err := ndb.saveNodeFromPruning(root); err != nil {
+			return err
+		}
+		// ensure that the given version is not included in the root search
+		if err := ndb.deleteFromPruning(ndb.nodeKey(literalRootKey)); err != nil {
 			return err
 		}
 	}
